@@ -1,16 +1,23 @@
 import json,sys
 props={json.loads(l)['id']:json.loads(l) for l in open('/verif/properties.jsonl')}
 pid=sys.argv[1]
+wave=sys.argv[2] if len(sys.argv)>2 else ""
+EMPH={"":"","w3":"""
+ADDITIONAL REQUIREMENT FOR THIS ROUND (harder mutants wanted): 
+  - Mutant A must be STATE- or HISTORY-dependent: it must only manifest after a particular sequence of earlier calls / earlier files on disk / earlier configuration of module-level or object state in the same process (or across processes through files), or under a particular ordering of concurrent work - a single call in a fresh process must still satisfy the property. Typical vehicles: a memo/cache with an incomplete key, a reused buffer, a module-level default that gets mutated, a lazily initialised global, a stale file, a result object that is shared instead of copied.
+  - Mutant B must depend on an UNUSUAL BUT LEGITIMATE CLASS OF INPUTS that typical tests do not contain (think about dtypes, containers (tuple vs list vs ndarray), negative or zero or very large/small magnitudes, values exactly on a branch boundary, odd/prime sizes, non-contiguous or read-only arrays, descending or duplicated entries, unusual-but-valid option combinations), preferably via TWO cooperating code sites that each look fine alone.
+  - Avoid the most obvious single-token edits in the most central formula; prefer changes in guards, defaults, index/slice arithmetic, dtype handling, caching and bookkeeping code.
+"""}
 p=props[pid]
-wt="/tmp/wt/%s"%pid
+wt="/tmp/wt/%s%s"%(pid,wave)
 print(f"""You are helping to evaluate a verification effort by playing the adversary ("mutation author"). The project is BLDFM, a Python library (FFT + linear-shooting solver for the steady 3-D advection-diffusion equation producing atmospheric flux footprints, with MOST profiles, a config-driven interface with serial/parallel drivers, a disk cache, NetCDF I/O and a Kormann-Meixner reference model).
 
-You have your OWN scratch git worktree of the repository at {wt} (detached HEAD). Work ONLY inside {wt} and write your deliverables to {wt}_out/ . Do NOT read, list or modify /repo or /verif (or anything else outside {wt}, {wt}_out and scratch files under /tmp/wt/{pid}_scratch) - your work must be independent of them.
+You have your OWN scratch git worktree of the repository at {wt} (detached HEAD). Work ONLY inside {wt} and write your deliverables to {wt}_out/ . Do NOT read, list or modify /repo or /verif (or anything else outside {wt}, {wt}_out and scratch files under {wt}_scratch) - your work must be independent of them.
 
 How to run things (the sandbox has no network):
 - Python: /venv/bin/python ; ALWAYS prefix commands with PYTHONPATH={wt}/src so that your worktree's sources are imported (check with: PYTHONPATH={wt}/src /venv/bin/python -c "import bldfm; print(bldfm.__file__)").
 - The existing test suite: cd {wt} && PYTHONPATH={wt}/src /venv/bin/python -m pytest -q -p no:cacheprovider --timeout=900 2>/dev/null | tail -5   (takes about 1-2 minutes; on the unmodified tree it reports 135 passed, 4 skipped). Every bldfm process prints a harmless traceback about "can't create new thread at interpreter shutdown" at exit - ignore it.
-- Run scripts from a scratch directory such as /tmp/wt/{pid}_scratch (the library writes fftw_wisdom.pkl, .bldfm_cache/, logs/ into the current directory).
+- Run scripts from a scratch directory such as {wt}_scratch (the library writes fftw_wisdom.pkl, .bldfm_cache/, logs/ into the current directory).
 
 THE PROPERTY that is supposed to hold for this code base:
 
@@ -25,6 +32,7 @@ YOUR TASK: produce TWO different, realistic changes ("mutants") to the library s
   (c) looks like a plausible bug a developer could introduce (an off-by-one, a swapped argument, a wrong index, a "harmless" optimisation or refactoring such as a cache / shortcut / reordered statement, a wrong default, an edge case handled wrongly), NOT sabotage guarded by a magic constant, and
   (d) needs something SPECIFIC to manifest - a particular multi-step sequence of calls, a particular interleaving / completion order / crash point, an unusual but legitimate input (odd sizes, non-default options, incommensurate values, descending orders, integer-typed inputs, particular parameter regimes ...), or two cooperating sites that each look fine alone - rather than something that any ordinary use would expose at once. Prefer subtle over blatant. The two mutants should break the property through different mechanisms / code sites.
 
+{EMPH[wave]}
 For EACH mutant (call them A and B) deliver in {wt}_out/ :
   - patchA.diff / patchB.diff : output of `git -C {wt} diff` with only that mutant applied (make sure it applies cleanly with `git apply` to a clean checkout of the same commit),
   - demoA.py / demoB.py : a small self-contained program (run as: PYTHONPATH=<tree>/src /venv/bin/python demoA.py) that exits with status 0 on the UNMODIFIED tree and with a non-zero status (with a message saying what went wrong) when the mutant is applied; it must test the property as stated (through the public API), not an implementation detail,
